@@ -541,7 +541,7 @@ func checkFoPair(c *Ctx, p foPair) {
 	}
 	checkTopLevelShape(r, p.label, toks)
 	fset := token.NewFileSet()
-	gf, err := parser.ParseFile(fset, p.gen, gsrc, 0)
+	gf, err := parser.ParseFile(fset, p.gen, gsrc, parser.ParseComments)
 	if err != nil {
 		r.Bad("C04.b", p.label, "generated-parses", p.label, "the generated file does not parse: "+err.Error())
 		return
@@ -596,6 +596,14 @@ func checkFoPair(c *Ctx, p foPair) {
 		})
 		r.Check(elided == token.NoPos, "C04.i", p.label, "composite-literal-types", c.Pos(fset, gf.Pos()), "every composite literal of the generated file names its type",
 			"a composite literal with an elided type at "+c.Pos(fset, elided)+": fc always writes the type, so the file was rewritten by another tool (gofmt -s) or by hand and is not what regeneration yields")
+	}
+	// (i, third clause) fc emits no comment (GoEval text is the only way one could get in, and none does)
+	if c04CompilerEmitsComments {
+		// the premise does not hold for this compiler: nothing to decide
+	} else if len(gf.Comments) == 0 {
+		r.OK("C04.i", p.label, "no-comments", p.label, "the generated file has no comment")
+	} else {
+		r.Bad("C04.i", p.label, "no-comments", c.Pos(fset, gf.Comments[0].Pos()), "the generated file contains a comment: fc emits none, so the file was edited by hand and regeneration drops it")
 	}
 	// expected declarations
 	var exp []expDecl
@@ -823,6 +831,8 @@ func checkFoPair(c *Ctx, p foPair) {
 	}
 }
 
+var c04CompilerEmitsComments bool
+
 func checkC04(c *Ctx) {
 	r := c.R
 	r.Explanation = "The fixed point itself ('build fc, run it, compare bytes', and generation 2 even more) is an execution and is NOT decided. Decided is the agreement of every checked-in (source, generated) pair — a necessary condition no test looks at: " +
@@ -838,7 +848,7 @@ func checkC04(c *Ctx) {
 	r.Rule("C04.b", "ordered declaration tables agree for every pair", 30)
 	r.Rule("C04.c", "per-definition literal sequences and construct counts agree", 400)
 	r.Rule("C04.c3", "per-definition ordered skeletons (identifiers outside type positions, operators, literals, if/match/not/pipe constructs) agree", 400)
-	r.Rule("C04.i", "every unqualified record literal has the field names of exactly one record type of its program (otherwise its type is the compiler's tie-break and regeneration may name another type); no composite literal of a generated file has an elided type (fc never emits one; gofmt -s does)", 40)
+	r.Rule("C04.i", "every unqualified record literal has the field names of exactly one record type of its program (otherwise its type is the compiler's tie-break and regeneration may name another type); no composite literal of a generated file has an elided type (fc never emits one; gofmt -s does) and no generated file has a comment", 40)
 	r.Rule("C04.h", "the compiler-generated switch temporaries of every generated file are numbered _v1, _v2, … in file order (what the emission counter yields)", 30)
 	r.Rule("C04.lex", "the hand-written lexer of fc is the reviewed one: the checker's own Folang tokenizer, on which rules (b), (c), (c2), (c3), (g) stand, was written against it (change detection; a different lexer is undecided)", 15)
 	r.Rule("C04.d", "generated files are gofmt-idempotent", 30)
@@ -847,6 +857,22 @@ func checkC04(c *Ctx) {
 	r.Rule("C04.imp", "the compiler's own import insertion has the closed form the expected declaration tables mirror", 7)
 	r.Rule("C04.lib", "the file wrappers the reproduction relies on are verbatim", 2)
 	root := c.Repo.Root
+	// premise of (i, third clause): no generated function of the compiler holds text that opens a Go comment
+	c04CompilerEmitsComments = false
+	if f := c.LoadFC("fc"); f != nil {
+		for _, fn := range f.Prog.Funcs {
+			if !fn.Generated {
+				continue
+			}
+			ir.WalkFunc(fn, func(t ir.Term) bool {
+				if lit, ok := t.(*ir.Lit); ok && lit.Kind == token.STRING && (strings.Contains(lit.Val, "//") || strings.Contains(lit.Val, "/*")) {
+					c04CompilerEmitsComments = true
+					r.Note("C04.i: the compiler holds comment text (%q in %s): the no-comment clause is not applied", short(lit.Val, 40), fn.Name)
+				}
+				return !c04CompilerEmitsComments
+			})
+		}
+	}
 	var pairs []foPair
 	// (a) fc
 	if sh, err := os.ReadFile(filepath.Join(root, "fc", "fc_all.sh")); err == nil {
